@@ -12,8 +12,9 @@ Definition vars := str -> str.   (* undefined variables expand to the empty stri
 Inductive xst := XN | XD | XR (acc : str).
 
 (* characters allowed in a variable name inside $(...) in the fragment we interpret *)
+(* GNU Make reads variable names bytewise: a reference to a non-ASCII name is outside the fragment *)
 Definition ref_char (c : char) : bool :=
-  negb (mem_char c [36; 40; 41; 32; 9; 44; 58; 61; 35; 123; 125]).
+  (c <? 128) && negb (mem_char c [36; 40; 41; 32; 9; 44; 58; 61; 35; 123; 125]).
 
 Fixpoint expand_go (v : vars) (st : xst) (s : str) : option str :=
   match s with
